@@ -316,12 +316,15 @@ func monitorHistory(c *core.Ctx, p core.Params, o core.Obs, h *histRun) {
 		}
 		if !known || !clientMsg[st.Msg] && st.Msg < 65 {
 			// unsupported types and server-to-client types: refused without looking at the token
-			if so.Kind != "" || (r.RespType != 255 && r.RespType != 0) {
+			if so.Kind != "" || r.RespType != 255 {
 				fail(fmt.Sprintf("non-client-type-served:%d:%s", st.Msg, so.Kind), at+fmt.Sprintf(": answered %d", r.RespType))
+			}
+			if known && m != nil { // an error from a responder ends the session whose token was presented
+				m.dead = true
 			}
 			continue
 		}
-		served := r.RespType != 255 && r.RespType != 0 // 0: the responder has no handler for this (server-to-client) type
+		served := r.RespType != 255
 		switch {
 		case m == nil:
 			if served || so.Kind != "" {
